@@ -724,8 +724,11 @@ func (fc *FnCtx) applyContract(st *State, c *Contract, home *ContractSet, homePk
 	for i := 0; i < sig.Params().Len() && i < len(args); i++ {
 		p := sig.Params().At(i)
 		bind(idx+i, p.Name(), args[i])
-		env.bound[fmt.Sprintf("$%d", i)] = args[i]
 	}
+	for i := range args {
+		env.bound[fmt.Sprintf("$%d", i)] = args[i] // positional access, also to the individual variadic arguments
+	}
+	env.nargs = len(args)
 	short := key
 	if j := strings.LastIndex(key, "/"); j >= 0 {
 		short = key[j+1:]
